@@ -804,6 +804,12 @@ def oracle_c19(case, real):
             for a, q in real['after']:
                 if a not in entered:
                     out.append(dict(what='position in %s before its entry' % a, key='position-before-entry'))
+            # included from the first rebalance at or after its entry: a non-zero target of an entered asset is held after the fills
+            have = set(a for a, q in real['after'])
+            for a, q in (real.get('target') or []):
+                if q != 0 and a in entered and a not in have:
+                    out.append(dict(what='%s has entered and is sized %r, but the portfolio holds none after the fills' % (a, q),
+                                    key='no-position-after-entry'))
     return out
 
 
